@@ -224,6 +224,34 @@ def gen_system_cases(rng, tier, units, best, grid, temp_extra, keyvariants):
     return cases
 
 
+def gen_recipe_cases(rng, tier, units):
+    """recipes whose quantities are already in / not in the target system, in designated and non-designated units,
+    badly fitted values, text values with units, unknown units, no units, timers, inline temperatures, cookware"""
+    out = []
+    keys = [k for u in units for k in unit_keys(u) if k and " " not in k and not k[0].isdigit()]
+    vals = ["5", "1500", "0.5", "2", "250", "1/2", "1 1/2", "3-4", "1500-2500", "some", "a bit", "0.001", "12"]
+    names = ["milk", "flour", "salt", "water", "oil", "rice"]
+    n = 400 if tier == "quick" else 8000
+    for _ in range(n):
+        parts = []
+        for j in range(rng.randint(1, 6)):
+            k = rng.random()
+            if k < 0.7:
+                u = rng.choice(keys + ["pinch", "cloves"]) if rng.random() < 0.9 else None
+                v = rng.choice(vals)
+                parts.append("@%s%d{%s%s}" % (rng.choice(names), j, v, ("%" + u) if u else ""))
+            elif k < 0.8:
+                parts.append("~{%s%%%s}" % (rng.choice(["90", "0.5", "36", "1500"]), rng.choice(["min", "h", "s", "d", "minutes"])))
+            elif k < 0.9:
+                parts.append("#pot%d{%s}" % (j, rng.choice(["2", "big", "1-2"])))
+            else:
+                parts.append("heat to %s %s" % (rng.choice(["350", "180", "0", "32"]), rng.choice(["F", "°F", "C", "ºC"])))
+        text = " and ".join(parts)
+        for sysn in SYSTEMS:
+            out.append("RC %s %s" % (hx(text), sysn))
+    return out
+
+
 def gen_quantity_cases(rng, tier, units, grid, temp_extra, keyvariants):
     cases = []
     n = len(units)
@@ -324,9 +352,16 @@ def run(rep, tier, seed):
     cases, grid, temp_extra, keyvariants = gen_cases(rng, tier, units)
     cases += gen_system_cases(rng, tier, units, best, grid, temp_extra, keyvariants)
     cases += gen_quantity_cases(rng, tier, units, grid, temp_extra, keyvariants)
-    cases = list(dict.fromkeys(corpus + cases))
+    cases = list(dict.fromkeys([c for c in corpus if not c.startswith("RC ")] + cases))
     impl = common.run_lines(impl_exe, cases, tag="impl")
     model = common.run_lines(runner, cases, tag="model")
+
+    # recipe level (implementation only; the monitor in the harness states it): ScaledRecipe::convert must do to
+    # every ingredient, timer and inline quantity exactly what converting that quantity alone does, store one error
+    # per failure, leave failures and everything else untouched
+    rc_cases = [c for c in corpus if c.startswith("RC ")] + gen_recipe_cases(rng, tier, units)
+    rc_impl = common.run_lines(impl_exe, rc_cases, tag="impl-rc")
+    rc_stats = {"recipes": 0, "quantities": 0, "converted": 0, "errors": 0, "invalid": 0}
 
     monitor_hits = []
     disagreements = []
@@ -354,6 +389,20 @@ def run(rep, tier, seed):
             disagreements.append((c, {"case": c, "impl": li, "model": lm, "kind": "value beyond tolerance"}))
         else:
             pending.append((c, li, lm, v))
+
+    for c, li in zip(rc_cases, rc_impl):
+        hi_, v = strip_v(li)
+        if hi_ == "rc invalid":
+            rc_stats["invalid"] += 1
+            continue
+        if v != "-":
+            monitor_hits.append((c, "C09 monitor (ScaledRecipe::convert): " + v,
+                                 {"case": c, "recipe": unhx(c.split(" ")[1]), "system": c.split(" ")[2], "impl": li, "violated": v}))
+        f = hi_.split(" ")
+        rc_stats["recipes"] += 1
+        rc_stats["quantities"] += int(f[1])
+        rc_stats["converted"] += int(f[2])
+        rc_stats["errors"] += int(f[3])
 
     # rounding ties: the model at v(1 +- 2^-40) gives the implementation's answer and the monitor accepts
     ties = []
@@ -416,7 +465,7 @@ def run(rep, tier, seed):
                 samples.append({"case": c, "impl": li})
                 break
     rep.coverage.update({
-        "evaluations": len(cases), "case_kinds": kinds, "impl_outcomes": outcomes,
+        "evaluations": len(cases) + len(rc_cases), "case_kinds": kinds, "impl_outcomes": outcomes,
         "units": len(units), "unit_keys": sum(len(unit_keys(u)) for u in units),
         "ordered_pairs": len(units) ** 2, "number_conversions": pairs,
         "rule": "all %d^2 ordered pairs of the bundled units (keys rotating over symbol / name / last key) x a grid of %d "
@@ -431,6 +480,7 @@ def run(rep, tier, seed):
         "worst_relative_deviation": float(worst),
         "worst_relative_deviation_temperature_cases": float(worst_temp),
         "rounding_ties": len(ties), "rounding_tie_samples": ties[:3],
+        "recipe_level_convert": rc_stats,
         "correspondence_disagreements": len(disagreements), "monitor_violations": len(monitor_hits),
         "units_toml_regenerated_changed": bool(regenerated),
         "standards_entries": len(standards),
